@@ -292,16 +292,18 @@ func (c *channel) receiver() {
 			// attempt to reconnect indefinitely until the node is closed.
 			// This is necessary when streaming is enabled.
 			c.reconnect(-1)
+			// Only stop here, after the pending messages have been cancelled: when the
+			// node is closed while a reply is being delivered, the next RecvMsg fails
+			// (the stream context is a child of parentCtx) and we end up here.
+			select {
+			case <-c.parentCtx.Done():
+				return
+			default:
+			}
 		} else {
 			c.streamMut.RUnlock()
 			err := status.FromProto(resp.Metadata.GetStatus()).Err()
 			c.routeResponse(resp.Metadata.MessageID, response{nid: c.node.ID(), msg: resp.Message, err: err})
-		}
-
-		select {
-		case <-c.parentCtx.Done():
-			return
-		default:
 		}
 	}
 }
